@@ -31,7 +31,14 @@ pub struct RunObs {
     pub timed_out: bool,
 }
 
+/// A run that exceeds 20 s is repeated once with a limit of 180 s before it is reported as not
+/// terminating: on a loaded machine a process that forks git a dozen times can be starved.
 pub fn run_bin(args: &[String], stdin: Option<&[u8]>, env: &[(String, String)], env_remove: &[&str], cwd: Option<&std::path::Path>) -> RunObs {
+    let r = run_bin_once(args, stdin, env, env_remove, cwd, 20);
+    if r.timed_out { run_bin_once(args, stdin, env, env_remove, cwd, 180) } else { r }
+}
+
+fn run_bin_once(args: &[String], stdin: Option<&[u8]>, env: &[(String, String)], env_remove: &[&str], cwd: Option<&std::path::Path>, limit_s: u64) -> RunObs {
     let mut cmd = Command::new(zerv_bin());
     cmd.args(args).stdout(Stdio::piped()).stderr(Stdio::piped());
     cmd.stdin(if stdin.is_some() { Stdio::piped() } else { Stdio::null() });
@@ -62,7 +69,7 @@ pub fn run_bin(args: &[String], stdin: Option<&[u8]>, env: &[(String, String)], 
         match child.try_wait().unwrap() {
             Some(s) => break s,
             None => {
-                if start.elapsed() > Duration::from_secs(20) {
+                if start.elapsed() > Duration::from_secs(limit_s) {
                     let _ = child.kill();
                     timed_out = true;
                     break child.wait().unwrap();
@@ -84,7 +91,7 @@ fn mask_now(bytes: &[u8]) -> String {
     let flush = |digits: &mut String, out: &mut String| {
         if !digits.is_empty() {
             match digits.parse::<u64>() {
-                Ok(n) if n.saturating_add(30) >= now && n <= now + 30 => out.push_str("<NOW>"),
+                Ok(n) if n.saturating_add(600) >= now && n <= now + 30 => out.push_str("<NOW>"),
                 _ => out.push_str(digits),
             }
             digits.clear();
